@@ -26,7 +26,41 @@ pub fn obligations(o: &Obs) -> BTreeMap<String, u128> {
 impl Monitor for C05 {
     fn post(&mut self, c: &mut SimCore, step: &Step, pre: &Obs, out: &TxOut, post: &Obs) -> MResult {
         let fm = c.w.a.fm.to_string();
-        // cross-check the raw reads against the paginated queries (positions by receiver)
+        // cross-check the raw reads against the public paginated queries: what users can see is
+        // what the custody sum is taken over
+        if c.step_no % 4 == 0 {
+            match c.w.farms_via_query(2) {
+                Ok(mut q) => {
+                    let mut raw = post.farms.clone();
+                    q.sort_by(|a, b| a.identifier.cmp(&b.identifier));
+                    raw.sort_by(|a, b| a.identifier.cmp(&b.identifier));
+                    if q != raw {
+                        return Err(viol("C05.query_vs_storage", format!("Farms{{}} (paginated) lists {} farms, storage holds {}", q.len(), raw.len())));
+                    }
+                }
+                Err(e) => return Err(viol("C05.query_vs_storage", format!("Farms{{}} query failed: {e}"))),
+            }
+            let mut owners: Vec<String> = post.positions.iter().map(|p| p.receiver.to_string()).collect();
+            owners.sort();
+            owners.dedup();
+            for o in owners {
+                for open in [true, false] {
+                    let mut raw: Vec<_> = post.positions.iter().filter(|p| p.receiver.as_str() == o && p.open == open).cloned().collect();
+                    raw.sort_by(|a, b| a.identifier.cmp(&b.identifier));
+                    match c.w.positions_via_query(&o, open) {
+                        Ok(mut q) => {
+                            q.sort_by(|a, b| a.identifier.cmp(&b.identifier));
+                            // the query returns at most 10 per state; more than 10 cannot exist
+                            if q != raw {
+                                return Err(viol("C05.query_vs_storage", format!("Positions{{receiver {}, open {open}}} returns {} positions, storage holds {}", c.w.a.name(&o), q.len(), raw.len())));
+                            }
+                        }
+                        Err(e) => return Err(viol("C05.query_vs_storage", format!("Positions query failed: {e}"))),
+                    }
+                }
+            }
+            c.stats.bump("probe.c05.queries_cross_checked");
+        }
         let owe = obligations(post);
         for (d, need) in owe.iter() {
             let have = bal(&post.bal, &fm, d);
